@@ -25,18 +25,29 @@ from autofit.non_linear.fitness import Fitness
 from autofit.non_linear.search.mle.pyswarms.search.abstract import FitnessPySwarms
 
 
-def _mk(n):
+def _mk(n, children=()):
+    """Component class with n float constructor arguments a.. and one constructor argument per nested model."""
     names = ["a", "b", "c", "d"][:n]
-    src = "def __init__(self, %s):\n" % ", ".join("%s=0.0" % x for x in names)
-    src += "".join("    self.%s = %s\n" % (x, x) for x in names) or "    pass\n"
+    args = ["%s=0.0" % x for x in names] + ["%s=None" % x for x in children]
+    src = "def __init__(self, %s):\n" % ", ".join(args)
+    src += "".join("    self.%s = %s\n" % (x, x) for x in names + list(children)) or "    pass\n"
     ns = {}
     exec(src, ns)
-    return type("K%d" % n, (), {"__init__": ns["__init__"]})
+    cls = type("K%d%s" % (n, "".join("_" + c for c in children)), (), {"__init__": ns["__init__"]})
+    globals()[cls.__name__] = cls        # picklable by reference (fitness objects are pickled by pooled searches)
+    return cls
 
 
-KS = {n: _mk(n) for n in range(1, 5)}
-for _n, _k in KS.items():
-    globals()[_k.__name__] = _k          # picklable by reference (fitness objects are pickled by pooled searches)
+KS = {}
+
+
+def component_class(n, children=()):
+    key = (n, tuple(children))
+    if key not in KS:
+        KS[key] = _mk(n, tuple(children))
+    return KS[key]
+
+
 ATTRS = ["a", "b", "c", "d"]
 
 
@@ -62,13 +73,22 @@ def build_model(md):
     """Priors are created in id order first, then attached in the (shuffled) order of comps/attrs."""
     priors = [make_prior(p) for p in md["priors"]]
     root = af.Collection()
-    comps = []
-    for comp in md["comps"]:
-        kw = {}
-        for name, o in comp["attrs"]:
-            kw[name] = operand(o, priors)
-        mdl = af.Model(KS[len(comp["attrs"])], **kw)
-        comps.append(mdl)
+    comps = [None] * len(md["comps"])
+
+    def build(i):
+        """A component model; components whose `parent` is i are nested in it as constructor arguments."""
+        comp = md["comps"][i]
+        kw = {name: operand(o, priors) for name, o in comp["attrs"]}
+        kids = [(j, cj["pattr"]) for j, cj in enumerate(md["comps"]) if cj.get("parent") == i]
+        for j, pattr in kids:
+            kw[pattr] = build(j)
+        comps[i] = af.Model(component_class(len(comp["attrs"]), [pa for _, pa in kids]), **kw)
+        return comps[i]
+
+    for i, comp in enumerate(md["comps"]):
+        if comp.get("parent") is not None:
+            continue
+        mdl = build(i)
         node = root
         for key in comp["path"][:-1]:
             if not hasattr(node, key):
